@@ -90,7 +90,9 @@ def scm_sem(props):
     if k == "import":
         return ("import", props["url"], props["dir"])
     if k == "svn":
-        return ("svn", props["url"], props.get("revision"), props["dir"])
+        return ("svn", props["url"], props.get("revision") or None, props["dir"])
+    if k == "cvs":
+        return ("cvs", props["cvsroot"], props.get("rev"), props["module"], props["dir"])
     return (k, tuple(sorted((a, repr(b)) for a, b in props.items() if not a.startswith("__") and a not in ("recipe", "overridden"))))
 
 
